@@ -123,7 +123,7 @@ Section Final.
     - intro H. injection H as <- <-. split; [intros bl [] | exact Ht].
     - destruct (take_blob T hc t ps) as [b1 t1] eqn:E1. destruct (take_blobs T hc t1 rest) as [bs t2] eqn:E2.
       intro H. injection H as <- <-.
-      destruct (InvProofs.take_blob_ok T teqb hc _ _ _ _ _ Hk Ht E1) as [Hb1 Ht1].
+      destruct (InvProofs.take_blob_ok T teqb hc teqb_spec _ _ _ _ _ Ht E1) as [Hb1 Ht1].
       destruct (IH _ _ _ _ Hk Ht1 E2) as [Hbs Ht2]. split; [|exact Ht2].
       intros bl [<- | Hin]; [exact Hb1 | apply Hbs; exact Hin].
   Qed.
@@ -525,7 +525,7 @@ Proof.
 Qed.
 
 Lemma ex_inv : disk_inv sym_eqb SContent ex_w /\ hist_sound_sym ex_w.
-Proof. apply (reach_hist_sound_partial_sym 1 ex_ops); [reflexivity | exact ex_det_history]. Qed.
+Proof. apply (reach_hist_sound_partial_sym 1 ex_ops); exact ex_det_history. Qed.
 
 Lemma ex_init : init_dir sym ex_w = Ok (ex_w1, ex_tbl).
 Proof. vm_compute. reflexivity. Qed.
@@ -623,7 +623,7 @@ Proof.
 Qed.
 
 Lemma ex_bad_inv : disk_inv sym_eqb SContent ex_wb /\ hist_sound_sym ex_wb.
-Proof. apply (reach_hist_sound_partial_sym 1 ex_ops_bad); [reflexivity | exact ex_bad_det_history]. Qed.
+Proof. apply (reach_hist_sound_partial_sym 1 ex_ops_bad); exact ex_bad_det_history. Qed.
 
 Lemma ex_bad_init : init_dir sym ex_wb = Ok (ex_wb1, ex_tblb).
 Proof. vm_compute. reflexivity. Qed.
